@@ -121,7 +121,8 @@ def _exits_in(stmt: ast.AST, kinds: tuple[type, ...]) -> list[ast.stmt]:
 def _loop_local_exits(stmt: ast.AST) -> list[ast.stmt]:
     """break/continue statements in stmt that bind to the loop enclosing stmt (not to loops nested in stmt)."""
     out = []
-    stack = [stmt]
+    # when stmt is itself a loop, the break / continue statements of its body bind to stmt, not outward
+    stack = list(stmt.orelse) if isinstance(stmt, (ast.For, ast.While, ast.AsyncFor)) else [stmt]
     while stack:
         n = stack.pop()
         if isinstance(n, FUNC_NODES + (ast.ClassDef,)):
